@@ -1,1 +1,1197 @@
-// stub
+// C11 — Relayer never skips a sequencer block on Celestia across any crash/restart.
+//
+// Deviation-bounded exploration of environment answers. The real relayer pipeline (real
+// `SubmissionStateAtStartup::new_from_path`, real `read::BlockStream`, real
+// `Relayer::{handle_latest_height, forward_block_for_submission}`, real `BlobSubmitter::run` with
+// the real `CelestiaClient` over loopback gRPC) runs under a paused tokio clock against a fake
+// Celestia app and a fake sequencer. Every RPC whose outcome matters is a *decision point*; a
+// history is the list of answers given so far (accept / reject / time out with the tx lost or
+// kept / tx included, pending, evicted / crash now with each fate of the in-flight tx). A crash
+// aborts every relayer task, leaves a torn temp file next to the state file, and restarts the
+// relayer from the state file on disk. Each state of the search is a history replayed from
+// scratch; the oracle looks only at what the fake Celestia confirmed and at the state file.
+#![allow(clippy::all, clippy::pedantic, dead_code, unused_imports)]
+
+#[path = "/verif/engine/mod.rs"]
+mod engine;
+
+use std::{
+    collections::BTreeMap,
+    net::SocketAddr,
+    path::PathBuf,
+    sync::{
+        Arc,
+        Mutex,
+    },
+    time::Duration,
+};
+
+use astria_core::{
+    brotli::decompress_bytes,
+    generated::{
+        astria::sequencerblock::v1::{
+            self as rawblock,
+            sequencer_service_client::SequencerServiceClient,
+            sequencer_service_server::{
+                SequencerService,
+                SequencerServiceServer,
+            },
+        },
+        celestia::v1::{
+            query_server::{
+                Query as BlobQueryService,
+                QueryServer as BlobQueryServer,
+            },
+            Params as BlobParams,
+            QueryParamsRequest as QueryBlobParamsRequest,
+            QueryParamsResponse as QueryBlobParamsResponse,
+        },
+        cosmos::{
+            auth::v1beta1::{
+                query_server::{
+                    Query as AuthQueryService,
+                    QueryServer as AuthQueryServer,
+                },
+                BaseAccount,
+                Params as AuthParams,
+                QueryAccountRequest,
+                QueryAccountResponse,
+                QueryParamsRequest as QueryAuthParamsRequest,
+                QueryParamsResponse as QueryAuthParamsResponse,
+            },
+            base::{
+                abci::v1beta1::TxResponse,
+                node::v1beta1::{
+                    service_server::{
+                        Service as MinGasPriceService,
+                        ServiceServer as MinGasPriceServer,
+                    },
+                    ConfigRequest as MinGasPriceRequest,
+                    ConfigResponse as MinGasPriceResponse,
+                },
+                tendermint::v1beta1::{
+                    service_server::{
+                        Service as NodeInfoService,
+                        ServiceServer as NodeInfoServer,
+                    },
+                    GetNodeInfoRequest,
+                    GetNodeInfoResponse,
+                },
+            },
+            tx::v1beta1::{
+                service_server::{
+                    Service as TxService,
+                    ServiceServer as TxServer,
+                },
+                BroadcastTxRequest,
+                BroadcastTxResponse,
+                GetTxRequest,
+                GetTxResponse,
+                Tx,
+            },
+        },
+        tendermint::{
+            p2p::DefaultNodeInfo,
+            types::BlobTx,
+        },
+    },
+    primitive::v1::RollupId,
+    protocol::test_utils::ConfigureSequencerBlock,
+    Protobuf as _,
+};
+use engine::{
+    explore::{
+        self,
+        Config,
+        Model,
+        Step,
+        Violation,
+    },
+    json::J,
+    report::{
+        self,
+        Finding,
+        Report,
+        Tier,
+    },
+};
+use futures::{
+    future::{
+        Fuse,
+        FusedFuture as _,
+    },
+    FutureExt as _,
+    StreamExt as _,
+};
+use prost::{
+    Message as _,
+    Name as _,
+};
+use sequencer_client::tendermint::block::Height as SequencerHeight;
+use sha2::{
+    Digest as _,
+    Sha256,
+};
+use tokio::sync::Notify;
+use tokio_util::sync::CancellationToken;
+use tonic::{
+    Request,
+    Response,
+    Status,
+};
+
+use super::{
+    read,
+    submission::SubmissionStateAtStartup,
+    write,
+    CelestiaClientBuilder,
+    CelestiaKeys,
+    ForwardFut,
+    Relayer,
+    State,
+};
+use crate::IncludeRollup;
+
+const SEQ_CHAIN_ID: &str = "verif-seq";
+const CELESTIA_CHAIN_ID: &str = "celestia";
+const FIRST: u64 = 1;
+const MAX_HEIGHT: u64 = 40;
+/// virtual seconds without reaching a decision point before a session counts as quiescent / hung
+const HORIZON_SECS: u64 = 400;
+
+// ---------------------------------------------------------------------------------------------
+// Decision points and answers
+// ---------------------------------------------------------------------------------------------
+
+#[derive(Clone, Copy, Debug, PartialEq, Eq, Hash, PartialOrd, Ord)]
+enum Point {
+    /// the account query of `try_prepare` (state file says `started`)
+    Prepare,
+    /// `BroadcastTx` arrived (state file says `prepared` with this tx's hash)
+    Broadcast,
+    /// `GetTx` arrived for a tx that sits in the fake's mempool
+    GetTx,
+}
+
+#[derive(Clone, Copy, Debug, PartialEq, Eq, Hash, PartialOrd, Ord)]
+enum Ans {
+    /// Prepare: account returned. Broadcast: tx accepted into the mempool. GetTx: tx is included in
+    /// a new Celestia block and reported.
+    Ok,
+    /// Prepare: the process dies here.
+    Crash,
+    /// Broadcast: non-zero code, tx not in the mempool.
+    Reject,
+    /// Broadcast: the client sees a timeout; the tx never reached the mempool.
+    TimeoutDrop,
+    /// Broadcast: the client sees a timeout; the tx is in the mempool.
+    TimeoutKeep,
+    /// Broadcast: the process dies; the tx never reached the mempool / is in the mempool.
+    CrashDrop,
+    CrashKeep,
+    /// GetTx: not found this time, tx stays in the mempool.
+    Pending,
+    /// GetTx: tx is evicted from the mempool (never included).
+    Evict,
+    /// GetTx: the process dies; the tx stays in the mempool / is included / is evicted.
+    CrashPending,
+    CrashIncluded,
+    CrashEvicted,
+}
+
+fn answers(p: Point) -> &'static [Ans] {
+    match p {
+        Point::Prepare => &[Ans::Ok, Ans::Crash],
+        Point::Broadcast => &[Ans::Ok, Ans::Reject, Ans::TimeoutDrop, Ans::TimeoutKeep, Ans::CrashDrop, Ans::CrashKeep],
+        Point::GetTx => &[Ans::Ok, Ans::Pending, Ans::Evict, Ans::CrashPending, Ans::CrashIncluded, Ans::CrashEvicted],
+    }
+}
+
+fn is_crash(a: Ans) -> bool {
+    matches!(a, Ans::Crash | Ans::CrashDrop | Ans::CrashKeep | Ans::CrashPending | Ans::CrashIncluded | Ans::CrashEvicted)
+}
+
+// ---------------------------------------------------------------------------------------------
+// The world outside the relayer process
+// ---------------------------------------------------------------------------------------------
+
+#[derive(Clone, Debug, PartialEq, Eq, Hash)]
+enum TxStatus {
+    Mempool,
+    Included(u64),
+    Gone,
+}
+
+#[derive(Clone, Debug)]
+struct TxRec {
+    heights: Vec<u64>,
+    sequence: u64,
+    status: TxStatus,
+}
+
+struct World {
+    script: Vec<Ans>,
+    cursor: usize,
+    /// set when a decision point is reached with the script used up
+    blocked: Option<Point>,
+    crash: bool,
+    bad_answer: Option<String>,
+    txs: BTreeMap<String, TxRec>,
+    broadcast_order: Vec<String>,
+    celestia_height: u64,
+    sequence: u64,
+    tip: u64,
+    tip_tx: tokio::sync::watch::Sender<u64>,
+    notify: Arc<Notify>,
+    trace: Vec<(Point, Ans)>,
+    served_heights: Vec<u64>,
+    log: Vec<String>,
+    t0: tokio::time::Instant,
+}
+
+fn wlog(world: &Arc<Mutex<World>>, what: String) {
+    let mut w = world.lock().unwrap();
+    let t = w.t0.elapsed().as_secs_f64();
+    w.log.push(format!("t={t:.3} {what}"));
+}
+
+impl World {
+    fn include(&mut self, hash: &str) -> u64 {
+        self.celestia_height += 1;
+        let h = self.celestia_height;
+        let seq = self.txs[hash].sequence;
+        for (k, t) in self.txs.iter_mut() {
+            if k == hash {
+                t.status = TxStatus::Included(h);
+            } else if t.status == TxStatus::Mempool && t.sequence == seq {
+                // same account sequence: can never be included any more
+                t.status = TxStatus::Gone;
+            }
+        }
+        self.sequence += 1;
+        // the sequencer keeps producing blocks
+        if self.tip < MAX_HEIGHT {
+            self.tip += 1;
+            let _ = self.tip_tx.send(self.tip);
+        }
+        h
+    }
+}
+
+enum Decision {
+    Answer(Ans),
+    Block,
+}
+
+fn decide(world: &Arc<Mutex<World>>, point: Point) -> Decision {
+    let mut w = world.lock().unwrap();
+    if w.cursor < w.script.len() {
+        let a = w.script[w.cursor];
+        w.cursor += 1;
+        if !answers(point).contains(&a) {
+            w.bad_answer = Some(format!("answer {a:?} given at {point:?} (decision {})", w.cursor - 1));
+            w.blocked = Some(point);
+            w.notify.notify_one();
+            return Decision::Block;
+        }
+        w.trace.push((point, a));
+        Decision::Answer(a)
+    } else {
+        w.blocked = Some(point);
+        w.notify.notify_one();
+        Decision::Block
+    }
+}
+
+async fn forever<T>() -> T {
+    std::future::pending::<T>().await
+}
+
+#[derive(Clone)]
+struct FakeCelestia(Arc<Mutex<World>>);
+
+fn seq_namespace_id() -> Vec<u8> {
+    astria_core::celestia::namespace_v0_from_sha256_of_bytes(SEQ_CHAIN_ID.as_bytes()).id().to_vec()
+}
+
+fn heights_of(blob_tx: &BlobTx) -> Vec<u64> {
+    let ns = seq_namespace_id();
+    let mut out = Vec::new();
+    for blob in &blob_tx.blobs {
+        if blob.namespace_id.as_ref() != ns.as_slice() {
+            continue;
+        }
+        let data = decompress_bytes(&blob.data).expect("sequencer blob decompresses");
+        let list = rawblock::SubmittedMetadataList::decode(&*data).expect("metadata list decodes");
+        for e in list.entries {
+            out.push(e.header.expect("header").height);
+        }
+    }
+    out
+}
+
+#[async_trait::async_trait]
+impl NodeInfoService for FakeCelestia {
+    async fn get_node_info(self: Arc<Self>, _r: Request<GetNodeInfoRequest>) -> Result<Response<GetNodeInfoResponse>, Status> {
+        wlog(&self.0, "node_info".into());
+        Ok(Response::new(GetNodeInfoResponse {
+            default_node_info: Some(DefaultNodeInfo {
+                network: CELESTIA_CHAIN_ID.to_string(),
+                ..Default::default()
+            }),
+            ..Default::default()
+        }))
+    }
+}
+
+#[async_trait::async_trait]
+impl AuthQueryService for FakeCelestia {
+    async fn account(self: Arc<Self>, request: Request<QueryAccountRequest>) -> Result<Response<QueryAccountResponse>, Status> {
+        wlog(&self.0, "account".into());
+        match decide(&self.0, Point::Prepare) {
+            Decision::Block => forever().await,
+            Decision::Answer(Ans::Crash) => {
+                {
+                    let mut w = self.0.lock().unwrap();
+                    w.crash = true;
+                    w.notify.notify_one();
+                }
+                forever().await
+            }
+            Decision::Answer(_) => {
+                let sequence = self.0.lock().unwrap().sequence;
+                let account = BaseAccount {
+                    address: request.into_inner().address,
+                    pub_key: None,
+                    account_number: 10,
+                    sequence,
+                };
+                Ok(Response::new(QueryAccountResponse {
+                    account: Some(pbjson_types::Any {
+                        type_url: BaseAccount::type_url(),
+                        value: account.encode_to_vec().into(),
+                    }),
+                }))
+            }
+        }
+    }
+
+    async fn params(self: Arc<Self>, _r: Request<QueryAuthParamsRequest>) -> Result<Response<QueryAuthParamsResponse>, Status> {
+        Ok(Response::new(QueryAuthParamsResponse {
+            params: Some(AuthParams {
+                max_memo_characters: 256,
+                tx_sig_limit: 7,
+                tx_size_cost_per_byte: 10,
+                sig_verify_cost_ed25519: 590,
+                sig_verify_cost_secp256k1: 1000,
+            }),
+        }))
+    }
+}
+
+#[async_trait::async_trait]
+impl BlobQueryService for FakeCelestia {
+    async fn params(self: Arc<Self>, _r: Request<QueryBlobParamsRequest>) -> Result<Response<QueryBlobParamsResponse>, Status> {
+        Ok(Response::new(QueryBlobParamsResponse {
+            params: Some(BlobParams {
+                gas_per_blob_byte: 8,
+                gov_max_square_size: 64,
+            }),
+        }))
+    }
+}
+
+#[async_trait::async_trait]
+impl MinGasPriceService for FakeCelestia {
+    async fn config(self: Arc<Self>, _r: Request<MinGasPriceRequest>) -> Result<Response<MinGasPriceResponse>, Status> {
+        Ok(Response::new(MinGasPriceResponse {
+            minimum_gas_price: "0.002000000000000000utia".to_string(),
+        }))
+    }
+}
+
+fn tx_response(hash: &str, code: u32, height: i64, log: &str) -> TxResponse {
+    TxResponse {
+        txhash: hash.to_string(),
+        code,
+        height,
+        raw_log: log.to_string(),
+        ..TxResponse::default()
+    }
+}
+
+#[async_trait::async_trait]
+impl TxService for FakeCelestia {
+    async fn broadcast_tx(self: Arc<Self>, request: Request<BroadcastTxRequest>) -> Result<Response<BroadcastTxResponse>, Status> {
+        let req = request.into_inner();
+        let blob_tx = BlobTx::decode(req.tx_bytes.as_ref()).map_err(|e| Status::invalid_argument(e.to_string()))?;
+        let hash = hex::encode(Sha256::digest(&blob_tx.tx));
+        let tx = Tx::decode(blob_tx.tx.as_ref()).map_err(|e| Status::invalid_argument(e.to_string()))?;
+        let sequence = tx.auth_info.as_ref().and_then(|a| a.signer_infos.first()).map(|s| s.sequence).unwrap_or(u64::MAX);
+        let heights = heights_of(&blob_tx);
+        wlog(&self.0, format!("broadcast {} seq={sequence} heights={heights:?}", &hash[..8]));
+        // rules of the chain that do not depend on the environment
+        {
+            let w = self.0.lock().unwrap();
+            if let Some(t) = w.txs.get(&hash) {
+                if t.status == TxStatus::Mempool {
+                    return Ok(Response::new(BroadcastTxResponse {
+                        tx_response: Some(tx_response(&hash, 19, 0, "tx already in mempool")),
+                    }));
+                }
+            }
+            if sequence != w.sequence {
+                return Ok(Response::new(BroadcastTxResponse {
+                    tx_response: Some(tx_response(&hash, 32, 0, "account sequence mismatch")),
+                }));
+            }
+        }
+        let ans = match decide(&self.0, Point::Broadcast) {
+            Decision::Block => forever().await,
+            Decision::Answer(a) => a,
+        };
+        let keep = matches!(ans, Ans::Ok | Ans::TimeoutKeep | Ans::CrashKeep);
+        {
+            let mut w = self.0.lock().unwrap();
+            if keep {
+                w.txs.insert(hash.clone(), TxRec {
+                    heights,
+                    sequence,
+                    status: TxStatus::Mempool,
+                });
+                w.broadcast_order.push(hash.clone());
+            }
+            if is_crash(ans) {
+                w.crash = true;
+                w.notify.notify_one();
+            }
+        }
+        match ans {
+            Ans::Ok => Ok(Response::new(BroadcastTxResponse {
+                tx_response: Some(tx_response(&hash.to_uppercase(), 0, 0, "")),
+            })),
+            Ans::Reject => Ok(Response::new(BroadcastTxResponse {
+                tx_response: Some(tx_response(&hash, 5, 0, "insufficient funds")),
+            })),
+            Ans::TimeoutDrop | Ans::TimeoutKeep => Err(Status::cancelled("Timeout expired")),
+            _ => forever().await,
+        }
+    }
+
+    async fn get_tx(self: Arc<Self>, request: Request<GetTxRequest>) -> Result<Response<GetTxResponse>, Status> {
+        let hash = request.into_inner().hash.to_lowercase();
+        let status = self.0.lock().unwrap().txs.get(&hash).map(|t| t.status.clone());
+        wlog(&self.0, format!("get_tx {} {status:?}", &hash[..8.min(hash.len())]));
+        match status {
+            None | Some(TxStatus::Gone) => Err(Status::not_found("tx not found")),
+            Some(TxStatus::Included(h)) => Ok(Response::new(GetTxResponse {
+                tx: None,
+                tx_response: Some(tx_response(&hash, 0, i64::try_from(h).unwrap(), "")),
+            })),
+            Some(TxStatus::Mempool) => {
+                let ans = match decide(&self.0, Point::GetTx) {
+                    Decision::Block => forever().await,
+                    Decision::Answer(a) => a,
+                };
+                let mut included = None;
+                {
+                    let mut w = self.0.lock().unwrap();
+                    match ans {
+                        Ans::Ok | Ans::CrashIncluded => included = Some(w.include(&hash)),
+                        Ans::Evict | Ans::CrashEvicted => w.txs.get_mut(&hash).unwrap().status = TxStatus::Gone,
+                        _ => {}
+                    }
+                    if is_crash(ans) {
+                        w.crash = true;
+                        w.notify.notify_one();
+                    }
+                }
+                if is_crash(ans) {
+                    return forever().await;
+                }
+                match included {
+                    Some(h) => Ok(Response::new(GetTxResponse {
+                        tx: None,
+                        tx_response: Some(tx_response(&hash, 0, i64::try_from(h).unwrap(), "")),
+                    })),
+                    None => Err(Status::not_found("tx not found")),
+                }
+            }
+        }
+    }
+}
+
+#[derive(Clone)]
+struct FakeSequencer {
+    world: Arc<Mutex<World>>,
+    blocks: Arc<Vec<rawblock::SequencerBlock>>,
+}
+
+#[async_trait::async_trait]
+impl SequencerService for FakeSequencer {
+    async fn get_sequencer_block(
+        self: Arc<Self>,
+        request: Request<rawblock::GetSequencerBlockRequest>,
+    ) -> Result<Response<rawblock::SequencerBlock>, Status> {
+        let h = request.into_inner().height;
+        wlog(&self.world, format!("get_sequencer_block {h}"));
+        let tip = {
+            let mut w = self.world.lock().unwrap();
+            w.served_heights.push(h);
+            w.tip
+        };
+        if h < FIRST || h > tip {
+            return Err(Status::not_found("no such block"));
+        }
+        Ok(Response::new(self.blocks[usize::try_from(h - FIRST).unwrap()].clone()))
+    }
+
+    async fn get_filtered_sequencer_block(
+        self: Arc<Self>,
+        _r: Request<rawblock::GetFilteredSequencerBlockRequest>,
+    ) -> Result<Response<rawblock::FilteredSequencerBlock>, Status> {
+        Err(Status::unimplemented("not used"))
+    }
+
+    async fn get_pending_nonce(
+        self: Arc<Self>,
+        _r: Request<rawblock::GetPendingNonceRequest>,
+    ) -> Result<Response<rawblock::GetPendingNonceResponse>, Status> {
+        Err(Status::unimplemented("not used"))
+    }
+
+    async fn get_upgrades_info(
+        self: Arc<Self>,
+        _r: Request<rawblock::GetUpgradesInfoRequest>,
+    ) -> Result<Response<rawblock::GetUpgradesInfoResponse>, Status> {
+        Err(Status::unimplemented("not used"))
+    }
+
+    async fn get_validator_name(
+        self: Arc<Self>,
+        _r: Request<rawblock::GetValidatorNameRequest>,
+    ) -> Result<Response<rawblock::GetValidatorNameResponse>, Status> {
+        Err(Status::unimplemented("not used"))
+    }
+}
+
+// ---------------------------------------------------------------------------------------------
+// One relayer process lifetime (mirrors `Relayer::run` without the CometBFT HTTP client: the chain
+// id check is skipped and the latest height comes from a watch channel)
+// ---------------------------------------------------------------------------------------------
+
+struct Env {
+    state_path: PathBuf,
+    celestia: SocketAddr,
+    sequencer: SocketAddr,
+    metrics: &'static crate::Metrics,
+    world: Arc<Mutex<World>>,
+    aborts: Arc<Mutex<Vec<tokio::task::AbortHandle>>>,
+}
+
+enum SessionEnd {
+    StateFileUnreadable(String),
+    Exited(String),
+}
+
+async fn session(env: Arc<Env>) -> SessionEnd {
+    let submission_state_at_startup = match SubmissionStateAtStartup::new_from_path(&env.state_path).await {
+        Ok(s) => s,
+        Err(e) => return SessionEnd::StateFileUnreadable(format!("{e:#}")),
+    };
+    let last_completed_sequencer_height = submission_state_at_startup.last_completed_sequencer_height();
+    let state = Arc::new(State::new());
+    let key = tendermint::private_key::Secp256k1::from_slice(&[7u8; 32]).unwrap();
+    let celestia_client_builder = CelestiaClientBuilder::new(
+        CELESTIA_CHAIN_ID.to_string(),
+        0.002,
+        format!("http://{}", env.celestia).parse().unwrap(),
+        CelestiaKeys::from(key),
+        state.clone(),
+    )
+    .unwrap();
+    let relayer_shutdown_token = CancellationToken::new();
+    let submitter_shutdown_token = relayer_shutdown_token.child_token();
+    let rollup_filter = IncludeRollup::parse("").unwrap();
+    let (submitter, submitter_handle) = write::BlobSubmitter::new(
+        celestia_client_builder.clone(),
+        rollup_filter.clone(),
+        state.clone(),
+        submission_state_at_startup,
+        submitter_shutdown_token.clone(),
+        env.metrics,
+    );
+    let submitter_join = tokio::spawn(submitter.run());
+    env.aborts.lock().unwrap().push(submitter_join.abort_handle());
+    let mut submitter_task = submitter_join.fuse();
+
+    let sequencer_grpc_client = SequencerServiceClient::new(
+        tonic::transport::Endpoint::from_shared(format!("http://{}", env.sequencer)).unwrap().connect_lazy(),
+    );
+    let relayer = Relayer {
+        relayer_shutdown_token,
+        submitter_shutdown_token,
+        sequencer_chain_id: SEQ_CHAIN_ID.to_string(),
+        sequencer_cometbft_client: sequencer_client::HttpClient::new("http://127.0.0.1:1").unwrap(),
+        sequencer_grpc_client: sequencer_grpc_client.clone(),
+        sequencer_poll_period: Duration::from_millis(100),
+        celestia_client_builder,
+        rollup_filter,
+        state: state.clone(),
+        submission_state_path: env.state_path.clone(),
+        metrics: env.metrics,
+    };
+    let mut block_stream = read::BlockStream::builder(env.metrics)
+        .block_time(relayer.sequencer_poll_period)
+        .client(sequencer_grpc_client)
+        .set_last_fetched_height(last_completed_sequencer_height)
+        .state(state.clone())
+        .build();
+    let mut forward_once_free: ForwardFut = Fuse::terminated();
+    let mut tip_rx = env.world.lock().unwrap().tip_tx.subscribe();
+    let tip = *tip_rx.borrow_and_update();
+    relayer.handle_latest_height(Ok(SequencerHeight::try_from(tip).unwrap()), &mut block_stream);
+    relayer.state.set_ready();
+    loop {
+        tokio::select!(
+            biased;
+
+            res = &mut submitter_task => return SessionEnd::Exited(format!("Celestia submission task returned: {res:?}")),
+
+            res = &mut forward_once_free, if !forward_once_free.is_terminated() => {
+                if res.is_err() {
+                    return SessionEnd::Exited("submitter exited unexpectedly while trying to forward block".into());
+                }
+                block_stream.resume();
+            }
+
+            Ok(()) = tip_rx.changed() => {
+                let tip = *tip_rx.borrow_and_update();
+                relayer.handle_latest_height(Ok(SequencerHeight::try_from(tip).unwrap()), &mut block_stream);
+            }
+
+            Some((height, fetch_result)) = block_stream.next() => {
+                let block = match fetch_result {
+                    Ok(b) => b,
+                    Err(e) => return SessionEnd::Exited(format!("fetch failed at {height}: {e:#}")),
+                };
+                relayer.state.set_latest_fetched_sequencer_height(height.value());
+                if let Err(e) = relayer.forward_block_for_submission(
+                    height,
+                    block,
+                    &mut block_stream,
+                    submitter_handle.clone(),
+                    &mut forward_once_free,
+                ) {
+                    return SessionEnd::Exited(format!("forward failed: {e:#}"));
+                }
+            }
+        );
+    }
+}
+
+// ---------------------------------------------------------------------------------------------
+// Replay of one history
+// ---------------------------------------------------------------------------------------------
+
+#[derive(Clone, Copy, Debug)]
+struct Setup {
+    /// blocks already produced by the sequencer when the relayer first starts
+    backlog: u64,
+}
+
+#[derive(Clone, Debug, PartialEq, Eq, Hash)]
+struct Obs {
+    pending: Option<Point>,
+    /// why there is no pending point
+    rest: Option<String>,
+    disk: String,
+    txs: Vec<(Vec<u64>, TxStatus)>,
+    confirmed: Vec<u64>,
+    tip: u64,
+    sessions: u32,
+}
+
+struct Replayer {
+    setup: Setup,
+    blocks: Arc<Vec<rawblock::SequencerBlock>>,
+    metrics: &'static crate::Metrics,
+}
+
+fn temp_path_of(p: &PathBuf) -> PathBuf {
+    // mirrors SubmissionStateAtStartup::new_from_path
+    match p.extension().and_then(|e| e.to_str()) {
+        Some(ext) => p.with_extension(format!("{ext}.tmp")),
+        None => p.with_extension("tmp"),
+    }
+}
+
+fn normalise_disk(s: &str) -> String {
+    match serde_json::from_str::<serde_json::Value>(s) {
+        Ok(mut v) => {
+            if let Some(o) = v.as_object_mut() {
+                o.remove("at");
+            }
+            v.to_string()
+        }
+        Err(_) => format!("UNPARSEABLE:{s}"),
+    }
+}
+
+impl Replayer {
+    fn viol(&self, clause: &str, signature: &str, detail: String) -> Violation {
+        Violation {
+            clause: clause.into(),
+            signature: signature.into(),
+            detail: format!("backlog={}: {detail}", self.setup.backlog),
+        }
+    }
+
+    fn run(&self, script: &[Ans]) -> Result<Obs, Violation> {
+        let dir = tempfile::tempdir().expect("temp dir");
+        let state_path = dir.path().join("submission-state.json");
+        std::fs::write(&state_path, "{\"state\": \"fresh\"}").unwrap();
+        let rt = tokio::runtime::Builder::new_current_thread().enable_all().start_paused(true).build().unwrap();
+        let notify = Arc::new(Notify::new());
+        let tip0 = FIRST + self.setup.backlog - 1;
+        let (tip_tx, _tip_rx) = tokio::sync::watch::channel(tip0);
+        let world = Arc::new(Mutex::new(World {
+            script: script.to_vec(),
+            cursor: 0,
+            blocked: None,
+            crash: false,
+            bad_answer: None,
+            txs: BTreeMap::new(),
+            broadcast_order: vec![],
+            celestia_height: 100,
+            sequence: 53,
+            tip: tip0,
+            tip_tx,
+            notify: notify.clone(),
+            trace: vec![],
+            served_heights: vec![],
+            log: vec![],
+            t0: rt.block_on(async { tokio::time::Instant::now() }),
+        }));
+        let result = rt.block_on(async {
+            use tokio_stream::wrappers::TcpListenerStream;
+            let celestia_listener = tokio::net::TcpListener::bind("127.0.0.1:0").await.unwrap();
+            let celestia = celestia_listener.local_addr().unwrap();
+            let fake = FakeCelestia(world.clone());
+            let server_c = tokio::spawn(
+                tonic::transport::Server::builder()
+                    .add_service(NodeInfoServer::new(fake.clone()))
+                    .add_service(AuthQueryServer::new(fake.clone()))
+                    .add_service(BlobQueryServer::new(fake.clone()))
+                    .add_service(MinGasPriceServer::new(fake.clone()))
+                    .add_service(TxServer::new(fake))
+                    .serve_with_incoming(TcpListenerStream::new(celestia_listener)),
+            );
+            let sequencer_listener = tokio::net::TcpListener::bind("127.0.0.1:0").await.unwrap();
+            let sequencer = sequencer_listener.local_addr().unwrap();
+            let server_s = tokio::spawn(
+                tonic::transport::Server::builder()
+                    .add_service(SequencerServiceServer::new(FakeSequencer {
+                        world: world.clone(),
+                        blocks: self.blocks.clone(),
+                    }))
+                    .serve_with_incoming(TcpListenerStream::new(sequencer_listener)),
+            );
+            let env = Arc::new(Env {
+                state_path: state_path.clone(),
+                celestia,
+                sequencer,
+                metrics: self.metrics,
+                world: world.clone(),
+                aborts: Arc::new(Mutex::new(vec![])),
+            });
+            let mut sessions = 0u32;
+            let outcome: Result<(Option<Point>, Option<String>), Violation> = loop {
+                sessions += 1;
+                world.lock().unwrap().crash = false;
+                let mut main = tokio::spawn(session(env.clone()));
+                let end = tokio::select!(
+                    biased;
+                    () = notify.notified() => None,
+                    r = &mut main => Some(r),
+                    () = tokio::time::sleep(Duration::from_secs(HORIZON_SECS)) => None,
+                );
+                // stop the process: abort every task of the session
+                main.abort();
+                for h in env.aborts.lock().unwrap().drain(..) {
+                    h.abort();
+                }
+                for _ in 0..8 {
+                    tokio::task::yield_now().await;
+                }
+                if let Some(r) = end {
+                    match r {
+                        Ok(SessionEnd::StateFileUnreadable(e)) => {
+                            break Err(self.viol(
+                                "state-file-readable",
+                                "the relayer cannot start from the state file left by a crash",
+                                format!("session {sessions} after answers {:?}: {e}", world.lock().unwrap().trace),
+                            ));
+                        }
+                        Ok(SessionEnd::Exited(e)) => break Ok((None, Some(format!("exited: {e}")))),
+                        Err(e) => break Ok((None, Some(format!("session task failed: {e}")))),
+                    }
+                }
+                let (crash, blocked, bad) = {
+                    let w = world.lock().unwrap();
+                    (w.crash, w.blocked, w.bad_answer.clone())
+                };
+                if let Some(bad) = bad {
+                    break Err(self.viol("harness", "answer does not fit the decision point", bad));
+                }
+                wlog(&world, format!("session {sessions} stopped: crash={crash} blocked={blocked:?}"));
+                if crash {
+                    // a crash during State::write leaves a partially written temp file behind
+                    std::fs::write(temp_path_of(&state_path), "{\"state\": \"prepa").unwrap();
+                    continue;
+                }
+                if let Some(p) = blocked {
+                    break Ok((Some(p), None));
+                }
+                break Ok((None, Some("no decision point within the horizon".into())));
+            };
+            server_c.abort();
+            server_s.abort();
+            outcome.map(|(pending, rest)| (pending, rest, sessions))
+        });
+        drop(rt);
+        if std::env::var("VERIF_TRACE").is_ok() {
+            for l in &world.lock().unwrap().log {
+                println!("TRACE {l}");
+            }
+            println!("TRACE result {:?}", result.as_ref().map(|r| (r.0, r.1.clone(), r.2)));
+        }
+        let (pending, rest, sessions) = result?;
+        let disk_raw = std::fs::read_to_string(&state_path).unwrap_or_else(|e| format!("UNREADABLE:{e}"));
+        let w = world.lock().unwrap();
+        if w.cursor < w.script.len() {
+            return Err(self.viol(
+                "harness",
+                "history not fully consumed",
+                format!("{} of {} answers used; rest: {rest:?}", w.cursor, w.script.len()),
+            ));
+        }
+        let mut confirmed: Vec<u64> = w.txs.values().filter(|t| matches!(t.status, TxStatus::Included(_))).flat_map(|t| t.heights.clone()).collect();
+        confirmed.sort_unstable();
+        confirmed.dedup();
+        // ---- oracle 1: no gap among confirmed heights
+        if let Some(&latest) = confirmed.last() {
+            if let Some(missing) = (FIRST..=latest).find(|h| !confirmed.contains(h)) {
+                return Err(self.viol(
+                    "no-gap",
+                    "a sequencer height below the latest confirmed one is not on Celestia",
+                    format!("height {missing} missing; confirmed {confirmed:?}; txs {:?}; answers {:?}", w.txs.values().collect::<Vec<_>>(), w.trace),
+                ));
+            }
+        }
+        // ---- oracle 2: every submission carries consecutive heights in order
+        for t in w.txs.values() {
+            if t.heights.is_empty() || t.heights.windows(2).any(|p| p[1] != p[0] + 1) {
+                return Err(self.viol(
+                    "no-gap",
+                    "a submission does not carry consecutive heights",
+                    format!("tx heights {:?}; answers {:?}", t.heights, w.trace),
+                ));
+            }
+        }
+        // ---- oracle 3: the state file parses and claims only what Celestia confirmed
+        let disk: serde_json::Value = match serde_json::from_str(&disk_raw) {
+            Ok(v) => v,
+            Err(e) => {
+                return Err(self.viol(
+                    "state-file-readable",
+                    "state file is not valid JSON",
+                    format!("{e}: `{disk_raw}`; answers {:?}", w.trace),
+                ));
+            }
+        };
+        if let Some(claimed) = disk.get("last_submission").and_then(|l| l.get("sequencer_height")).and_then(serde_json::Value::as_u64) {
+            if let Some(missing) = (FIRST..=claimed).find(|h| !confirmed.contains(h)) {
+                return Err(self.viol(
+                    "state-claims-only-confirmed",
+                    "state file records a height as submitted that Celestia did not confirm",
+                    format!("state file {disk} but height {missing} is not confirmed (confirmed {confirmed:?}); answers {:?}", w.trace),
+                ));
+            }
+            if let Some(ch) = disk.get("last_submission").and_then(|l| l.get("celestia_height")).and_then(serde_json::Value::as_u64) {
+                let ok = claimed == 0
+                    || w.txs.values().any(|t| t.status == TxStatus::Included(ch) && t.heights.last() == Some(&claimed));
+                if !ok {
+                    return Err(self.viol(
+                        "state-claims-only-confirmed",
+                        "state file names a Celestia height that does not hold that submission",
+                        format!("state file {disk}; txs {:?}; answers {:?}", w.txs.values().collect::<Vec<_>>(), w.trace),
+                    ));
+                }
+            }
+        }
+        // ---- non-vacuity: with no deviation the relayer keeps relaying
+        if script.iter().all(|a| *a == Ans::Ok) && pending.is_none() {
+            return Err(self.viol("harness", "relayer stopped on the default path", format!("{rest:?} after {:?}", w.trace)));
+        }
+        Ok(Obs {
+            pending,
+            rest,
+            disk: normalise_disk(&disk_raw),
+            txs: w.broadcast_order.iter().map(|h| (w.txs[h].heights.clone(), w.txs[h].status.clone())).collect(),
+            confirmed,
+            tip: w.tip,
+            sessions,
+        })
+    }
+}
+
+// ---------------------------------------------------------------------------------------------
+// Model
+// ---------------------------------------------------------------------------------------------
+
+struct St {
+    hist: Vec<Ans>,
+    obs: Obs,
+}
+
+impl Model for Replayer {
+    type Ev = Ans;
+    type St = St;
+
+    fn init(&self) -> St {
+        St {
+            hist: vec![],
+            obs: self.run(&[]).unwrap_or_else(|v| panic!("initial run: {v:?}")),
+        }
+    }
+
+    fn enabled(&self, st: &St, _hist: &[Ans]) -> Vec<Ans> {
+        st.obs.pending.map_or_else(Vec::new, |p| answers(p).to_vec())
+    }
+
+    fn cost(&self, ev: &Ans) -> u32 {
+        u32::from(*ev != Ans::Ok)
+    }
+
+    fn step(&self, st: &St, _hist: &[Ans], ev: &Ans) -> Step<St> {
+        let mut hist = st.hist.clone();
+        hist.push(*ev);
+        match self.run(&hist) {
+            Ok(obs) => Step::Next(St {
+                hist,
+                obs,
+            }),
+            Err(v) => Step::Violated(v),
+        }
+    }
+
+    fn canon(&self, st: &St) -> u128 {
+        // in-memory relayer state is not observable, so states are only merged when the whole
+        // history agrees (the search is a tree)
+        report::h128(&st.hist)
+    }
+
+    fn outcome(&self, st: &St) -> u64 {
+        report::h64(&(st.obs.pending, &st.obs.disk, &st.obs.confirmed, st.obs.rest.is_some()))
+    }
+}
+
+fn ans_name(a: &Ans) -> String {
+    format!("{a:?}")
+}
+
+fn ans_parse(s: &str) -> Ans {
+    [Point::Prepare, Point::Broadcast, Point::GetTx]
+        .iter()
+        .flat_map(|p| answers(*p).iter().copied())
+        .find(|a| ans_name(a) == s)
+        .unwrap_or_else(|| panic!("unknown answer {s}"))
+}
+
+fn make_blocks() -> Arc<Vec<rawblock::SequencerBlock>> {
+    Arc::new(
+        (FIRST..=MAX_HEIGHT)
+            .map(|h| {
+                ConfigureSequencerBlock {
+                    block_hash: Some(astria_core::sequencerblock::v1::block::Hash::new([h as u8; 32])),
+                    chain_id: Some(SEQ_CHAIN_ID.to_string()),
+                    height: u32::try_from(h).unwrap(),
+                    sequence_data: vec![(RollupId::new([0x51; 32]), format!("payload-{h}").into_bytes())],
+                    unix_timestamp: (1i64, 1u32).into(),
+                    signing_key: Some(astria_core::crypto::SigningKey::from([3; 32])),
+                    proposer_address: None,
+                    ..Default::default()
+                }
+                .make()
+                .into_raw()
+            })
+            .collect(),
+    )
+}
+
+#[test]
+fn verif_c11_crash() {
+    let mut rep = Report::new("C11", "crash");
+    let thorough = report::tier() == Tier::Thorough;
+    let metrics: &'static crate::Metrics = {
+        use telemetry::Metrics as _;
+        Box::leak(Box::new(crate::Metrics::noop_metrics(&()).unwrap()))
+    };
+    let blocks = make_blocks();
+    if let Some(case) = report::load_replay("C11", "crash") {
+        let m = Replayer {
+            setup: Setup {
+                backlog: case.get("backlog").and_then(J::as_int).unwrap() as u64,
+            },
+            blocks,
+            metrics,
+        };
+        let hist: Vec<Ans> = case.get("history").and_then(J::as_arr).unwrap().iter().map(|j| ans_parse(j.as_str().unwrap())).collect();
+        let a = m.run(&hist);
+        let b = m.run(&hist);
+        assert_eq!(format!("{:?}", a.as_ref().map(|o| (o.pending, &o.disk, &o.confirmed))), format!("{:?}", b.as_ref().map(|o| (o.pending, &o.disk, &o.confirmed))), "uncontrolled nondeterminism");
+        if let Err(v) = a {
+            rep.finding(Finding {
+                clause: v.clause,
+                signature: v.signature,
+                detail: v.detail,
+                case,
+            });
+        }
+        rep.finish();
+        return;
+    }
+    let (depth, max_cost) = if thorough { (12, 3) } else { (9, 2) };
+    let setups: Vec<Setup> = if thorough { vec![Setup { backlog: 1 }, Setup { backlog: 3 }, Setup { backlog: 6 }] } else { vec![Setup { backlog: 3 }, Setup { backlog: 1 }] };
+    rep.rule(&format!(
+        "every history of <= {depth} environment answers with <= {max_cost} deviations from the default answer, for initial sequencer backlogs {:?}: \
+         decision points are the account query of try_prepare {{ok, crash}}, BroadcastTx {{accept, reject, timeout with the tx lost / kept, crash \
+         with the tx lost / kept}} and GetTx of a mempool tx {{included, pending, evicted, crash with the tx pending / included / evicted}}; a crash \
+         aborts every relayer task, leaves a torn temp file, and restarts from the state file on disk; the sequencer produces one more block per \
+         Celestia inclusion. Each history is replayed from scratch on the real pipeline (SubmissionStateAtStartup::new_from_path, read::BlockStream, \
+         Relayer::handle_latest_height / forward_block_for_submission, BlobSubmitter::run, CelestiaClient over loopback gRPC) under a paused clock. \
+         Oracle after every history: heights confirmed on the fake Celestia have no gap from the first relayed height, every submission carries \
+         consecutive heights, the state file parses and the relayer restarts from it, and last_submission only names heights (and a Celestia height) \
+         that were confirmed",
+        setups.iter().map(|s| s.backlog).collect::<Vec<_>>()
+    ));
+    let mut outcomes = 0;
+    for setup in setups {
+        let m = Replayer {
+            setup,
+            blocks: blocks.clone(),
+            metrics,
+        };
+        let out = explore::explore(
+            &m,
+            &Config {
+                max_depth: depth,
+                max_cost,
+                workers: report::workers(),
+                time_cap: Duration::from_secs(if thorough { 3000 } else { 240 }),
+                ..Config::default()
+            },
+        );
+        println!(
+            "NOTE C11 backlog={} depth={depth} max_deviations={max_cost}: histories={} transitions={} skipped={} outcomes={} per_depth={:?} violations={}",
+            setup.backlog,
+            out.states,
+            out.transitions,
+            out.skipped,
+            out.distinct_outcomes,
+            out.per_depth_states,
+            out.violations.len()
+        );
+        rep.add("states", out.states);
+        rep.add("transitions", out.transitions);
+        rep.add("schedules", out.states);
+        rep.add("traces_validated_against_impl", out.transitions);
+        outcomes = outcomes.max(out.distinct_outcomes);
+        if let Some(cap) = &out.cap_hit {
+            rep.cap_hit(cap);
+        }
+        for v in &out.violations {
+            rep.finding(Finding {
+                clause: v.violation.clause.clone(),
+                signature: v.violation.signature.clone(),
+                detail: v.violation.detail.clone(),
+                case: J::obj().with("backlog", J::i(setup.backlog)).with("history", J::arr(v.history.iter().map(|a| J::s(ans_name(a))))),
+            });
+        }
+        for h in out.sample_histories.iter().take(2) {
+            rep.sample(J::obj().with("backlog", J::i(setup.backlog)).with("history", J::arr(h.iter().map(|a| J::s(ans_name(a))))));
+        }
+    }
+    rep.add("distinct_outcomes", outcomes);
+    rep.set_extra("depth", J::i(depth));
+    rep.set_extra("max_deviations", J::i(max_cost));
+    rep.assume("crash = the relayer process stops (all tasks dropped) at an RPC boundary; every distinct combination of state-file content and Celestia-side fate of the in-flight BlobTx arises at one of these boundaries. Power loss (rename persisted before file data) is outside the model");
+    rep.assume("the select loop of Relayer::run is mirrored by the harness (the CometBFT chain-id check is skipped, latest heights come from a channel); every arm's body is the real method");
+    rep.finish();
+}
+
+// ---------------------------------------------------------------------------------------------
+// State file: every crash point of `State::write` (write temp, rename) leaves a readable file
+// ---------------------------------------------------------------------------------------------
+
+#[test]
+fn verif_c11_statefile() {
+    let mut rep = Report::new("C11", "statefile");
+    rep.rule(
+        "for every pair (old, new) of state-file contents the relayer writes (fresh, started, prepared) and every crash point of State::write \
+         (temp file holds any prefix of the new content, renamed or not): SubmissionStateAtStartup::new_from_path succeeds and reports the old \
+         state (before the rename) or the new one (after it)",
+    );
+    let contents: Vec<(&str, String, Option<u64>)> = vec![
+        ("fresh", "{\n  \"state\": \"fresh\"\n}".to_string(), None),
+        (
+            "started",
+            "{\n  \"state\": \"started\",\n  \"last_submission\": {\n    \"celestia_height\": 5,\n    \"sequencer_height\": 7\n  }\n}".to_string(),
+            Some(7),
+        ),
+        (
+            "prepared",
+            "{\n  \"state\": \"prepared\",\n  \"sequencer_height\": 9,\n  \"last_submission\": {\n    \"celestia_height\": 5,\n    \"sequencer_height\": 8\n  },\n  \"blob_tx_hash\": \"0909090909090909090909090909090909090909090909090909090909090909\",\n  \"at\": \"2024-06-24T22:22:22.222222222Z\"\n}".to_string(),
+            Some(8),
+        ),
+    ];
+    let rt = tokio::runtime::Builder::new_current_thread().enable_all().build().unwrap();
+    for (old_name, old, old_last) in &contents {
+        for (new_name, new, new_last) in &contents {
+            for cut in 0..=new.len() {
+                for renamed in [false, true] {
+                    if renamed && cut != new.len() {
+                        // the rename only happens after the temp file was written completely
+                        continue;
+                    }
+                    rep.add("evaluations", 1);
+                    rep.add("schedules", 1);
+                    let dir = tempfile::tempdir().unwrap();
+                    let path = dir.path().join("state.json");
+                    std::fs::write(&path, old).unwrap();
+                    let tmp = temp_path_of(&path);
+                    std::fs::write(&tmp, &new.as_bytes()[..cut]).unwrap();
+                    if renamed {
+                        std::fs::rename(&tmp, &path).unwrap();
+                    }
+                    let got = rt.block_on(SubmissionStateAtStartup::new_from_path(&path));
+                    let want = if renamed { new_last } else { old_last };
+                    let ok = match &got {
+                        Ok(s) => s.last_completed_sequencer_height().map(|h| h.value()) == *want,
+                        Err(_) => false,
+                    };
+                    if !ok {
+                        rep.finding(Finding {
+                            clause: "state-file-readable".into(),
+                            signature: "state file unreadable or wrong after a crash inside State::write".into(),
+                            detail: format!("old={old_name} new={new_name} temp prefix {cut}/{} renamed={renamed}: {:?}", new.len(), got.map(|s| format!("{s:?}"))),
+                            case: J::obj().with("old", J::s(*old_name)).with("new", J::s(*new_name)).with("cut", J::i(cut as u64)).with("renamed", J::Bool(renamed)),
+                        });
+                    }
+                }
+            }
+        }
+    }
+    rep.finish();
+}
